@@ -32,7 +32,7 @@ ASSUMPTIONS = [
     "under dontdup any joining link may be returned; removing a non-member may raise any exception type",
 ]
 LEVEL_TEXT = (
-    "Model-based exploration: Hypothesis histories up to 30 (quick) / 80 (thorough) calls over tiny pools, compared "
+    "Model-based exploration with a bounded-exhaustive core (every history of <= 3 / <= 4 calls from a 54-op alphabet over 2 vertices + None) plus Hypothesis histories up to 30 (quick) / 80 (thorough) calls over tiny pools, compared "
     "with an independent dict/list model after every call, return values included.  A frame property can only be "
     "attacked by comparing the whole state, which is what the snapshot equality does."
 )
@@ -40,7 +40,7 @@ LEVEL_NOTE = (
     "Trusts the reference model in eglib/model.py (written from the property statement and docstrings, validated "
     "against the repaired tree on >10^5 histories) and the snapshot reader (public accessors only)."
 )
-TECHNIQUE = "model-based stateful PBT (Hypothesis op-list histories vs. reference model, compared after every call)"
+TECHNIQUE = "model-based stateful PBT (exhaustive small-scope + Hypothesis op-list histories vs. reference model, compared after every call)"
 
 OPS_W = (
     ["edge"] * 6 + ["v1"] * 4 + ["v2"] * 4 + ["link"] * 4 + ["unlink"] * 3
@@ -63,6 +63,31 @@ def strategy(tier):
         st.integers(0, 2),
         st.lists(op, max_size=maxlen),
         st.one_of(st.none(), st.lists(st.integers(0, 3), min_size=1, max_size=4)),
+    )
+
+
+def enumerate_cases(tier, shard=0, nshards=1):
+    import itertools
+
+    from eglib.driver import sharded
+
+    depth = 3 if tier == "quick" else 4
+    E = (0, 1, 5)
+    alpha = [("edge", x, y, cls) for cls in (0, 1) for x in E for y in E]
+    alpha += [(nm, l, x, 0) for nm in ("v1", "v2") for l in (0, 1) for x in E]
+    alpha += [("link", x, y, dd + 2 * fn) for dd in (0, 1) for fn in (0, 1) for x in (0, 1) for y in (0, 1)]
+    alpha += [("unlink", x, y, d) for x in (0, 1) for y in (0, 1) for d in (0, 1)]
+
+    def gen():
+        for k in range(1, depth + 1):
+            for seq in sharded(itertools.product(alpha, repeat=k), shard, nshards):
+                yield {"nv": 2, "nuni": 0, "vcls": None, "ops": [list(o) for o in seq]}
+
+    n = sum(len(alpha) ** k for k in range(1, depth + 1))
+    return gen(), (
+        f"all {n} histories of 1..{depth} calls from a {len(alpha)}-op alphabet (edge constructors of DirectedEdge / "
+        f"UnDirectedEdge with ends in {{a,b,None}}^2, v1=/v2= on the first two links, link_directed / link_undirected with "
+        f"dontdup on/off, unlink with destroy on/off) over 2 vertices, each compared with the reference model after every call"
     )
 
 
